@@ -125,7 +125,7 @@ func genParams(ctx *core.Ctx) ([]GenLine, error) {
 func replayParams(ctx *core.Ctx, lines []GenLine) (recs []InfoRec, suspect []bool, cases []*PipeCase, precs []*PipeRec, drift []string) {
 	r := ctx.Rand("param-data")
 	mism := map[string]int{}
-	bigRows, skippedBig := 0, 0
+	bigRows, skippedBig := map[string]int{}, 0
 	// the data cases are executed in batches; a case whose record looks right
 	// keeps neither its data nor its output
 	var pending []*PipeCase
@@ -172,19 +172,23 @@ func replayParams(ctx *core.Ctx, lines []GenLine) (recs []InfoRec, suspect []boo
 				nrows = 1
 			}
 			if p.Kind == "CCITT" {
-				if !(p.K < 0 && !p.Align && !p.Ieob) {
-					continue // CCITT data go through the corpus in ccitt.go
-				}
 				if p.Rows > 0 && nrows > p.Rows {
-					nrows = p.Rows // EndOfBlock is true here: fewer rows than /Rows are admissible
+					nrows = p.Rows // fewer rows than /Rows are admissible when EndOfBlock is true
+				}
+				if p.Ieob { // admissible shape: exactly /Rows rows (FilterPipe.tla)
+					if p.Rows == 0 || p.Rows > 5 {
+						continue
+					}
+					nrows = p.Rows
 				}
 			}
 			if row > 1<<16 {
-				if bigRows >= 24 {
+				// rows of 128 KiB and more (Columns at and around 2^20): a budget per filter family
+				if bigRows[p.family()] >= 40 {
 					skippedBig++
 					continue
 				}
-				bigRows++
+				bigRows[p.family()]++
 			}
 			kind := DataKinds[r.Intn(len(DataKinds))]
 			d := GenFor(r, p, kind, nrows*row)
